@@ -8,8 +8,8 @@ import (
 
 	plush "github.com/gobuffalo/plush/v5"
 	"github.com/gobuffalo/plush/v5/helpers/debug"
-	"github.com/gobuffalo/plush/v5/helpers/paths"
 	"github.com/gobuffalo/plush/v5/helpers/hctx"
+	"github.com/gobuffalo/plush/v5/helpers/paths"
 
 	"verifharness/vrt"
 )
@@ -102,7 +102,7 @@ type iterV struct{ n int }
 
 func (i iterV) Next() interface{} { return nil }
 
-const nKinds = 47
+const nKinds = 52
 
 // val: a value of kind k (payloads arbitrary where a payload can matter).
 func val(k int) interface{} {
@@ -203,8 +203,18 @@ func val(k int) interface{} {
 		return (*htmlerV)(nil)
 	case 45:
 		return outerE{} // a field promoted through an embedded pointer that is nil
-	default:
+	case 46:
 		return (*iterV)(nil)
+	case 47:
+		return int32(0) // zeros of the narrower numeric kinds: a divisor of the left operand's own type
+	case 48:
+		return uint8(0)
+	case 49:
+		return time.Duration(0)
+	case 50:
+		return float32(0)
+	default:
+		return int32(7)
 	}
 }
 
